@@ -4,4 +4,4 @@ Require Extraction.
 Require ExtrOcamlBasic.
 Extraction "../extract/gen/tools_model.ml"
   same_content spec_exit spec_diff_positions spec_count spec_index spec_offset spec_import
-  array_diff_m ad_count cmatch hdiff_m hdiff_exit_m match_wanted print_pos_m dump_sds_m hdp_print fmt_dec import_m opts0 table_tags hdiff_tab_m hdiff_tab_exit_m dumpvd_m.
+  array_diff_m ad_count cmatch hdiff_m hdiff_exit_m match_wanted print_pos_m dump_sds_m hdp_print fmt_dec import_m opts0 table_tags hdiff_tab_m hdiff_tab_exit_m dumpvd_m fields_walk.
